@@ -38,13 +38,14 @@ func init() {
 // anchors
 
 type c16Reader struct {
-	f      *kit.Func
-	recv   types.Object // receiver variable
-	buf    *types.Var   // the caller's []byte
-	dev    *types.Var   // interface-typed field whose Read is called
-	lo     *types.Var   // bytes.Buffer field (leftover)
-	lbVars map[types.Object]bool
-	unsafe map[types.Object]bool // ints whose address is taken / assigned in closures
+	f        *kit.Func
+	recv     types.Object // receiver variable
+	buf      *types.Var   // the caller's []byte
+	dev      *types.Var   // interface-typed field whose Read is called
+	lo       *types.Var   // bytes.Buffer field (leftover)
+	lbVars   map[types.Object]bool
+	viewVars map[types.Object]bool // locals that only ever hold views of buf
+	unsafe   map[types.Object]bool // ints whose address is taken / assigned in closures
 }
 
 func c16IsByteSlice(t types.Type) bool {
@@ -124,7 +125,7 @@ func c16FindReaders(c *kit.Ctx) []*c16Reader {
 				continue
 			}
 			for _, p := range f.Params() {
-				if c16IsByteSlice(p.Type()) && kit.IsViewOf(f.Info(), call.Args[0], p) {
+				if c16IsByteSlice(p.Type()) && kit.IsViewOf(f.Info(), c16Resolve(f, call.Args[0]), p) {
 					if rd == nil {
 						rd = &c16Reader{f: f, recv: recv, buf: p, dev: fld}
 					} else if rd.dev != fld || rd.buf != p {
@@ -208,6 +209,33 @@ func (rd *c16Reader) prepare() {
 		if n != 1 {
 			delete(rd.lbVars, o)
 		}
+	}
+	// locals that only ever hold views of the caller's buffer
+	rd.viewVars = map[types.Object]bool{}
+	bad := map[types.Object]bool{}
+	ast.Inspect(rd.f.Body, func(x ast.Node) bool {
+		as, ok := x.(*ast.AssignStmt)
+		if !ok {
+			return true
+		}
+		for i, l := range as.Lhs {
+			o, ok := kit.ObjOf(info, l).(*types.Var)
+			if !ok || o.IsField() || !c16IsByteSlice(o.Type()) || o == rd.buf {
+				continue
+			}
+			if len(as.Lhs) == len(as.Rhs) && (as.Tok == token.DEFINE || as.Tok == token.ASSIGN) && kit.IsViewOf(info, as.Rhs[i], rd.buf) {
+				rd.viewVars[o] = true
+			} else {
+				bad[o] = true
+			}
+		}
+		return true
+	})
+	for o := range bad {
+		delete(rd.viewVars, o)
+	}
+	for o := range rd.unsafe {
+		delete(rd.viewVars, o)
 	}
 }
 
@@ -418,14 +446,9 @@ func (fl *c16Flow) atom(e ast.Expr) (string, bool, bool) {
 	}
 	if lenSide(a) {
 		if k, ok := kit.ConstInt(info, b); ok {
-			switch {
-			case (op == token.GTR && k == 0) || (op == token.NEQ && k == 0) || (op == token.GEQ && k == 1):
-				return "ne", false, true
-			case (op == token.EQL && k == 0) || (op == token.LEQ && k == 0) || (op == token.LSS && k == 1):
-				return "ne", true, true
-			}
+			return fmt.Sprintf("len:%s:%d", c16OpNames[op], k), false, true
 		}
-		return "", false, false
+		// compared with a variable: an ordinary integer comparison (below)
 	}
 	// affine integer comparison
 	if d, op2, ok := kit.IntCmp(info, e); ok {
@@ -460,8 +483,116 @@ func (fl *c16Flow) bounds(s kit.S) []kit.Bound {
 			continue
 		}
 		out = append(out, kit.CmpBounds(d, op, s.Get(k) == "T")...)
+		if d2 := fl.substEq(d, s); d2.Key() != d.Key() {
+			out = append(out, kit.CmpBounds(d2, op, s.Get(k) == "T")...)
+		}
 	}
 	return out
+}
+
+// leftoverLen returns the interval of leftover.Len() implied by the
+// comparisons with constants decided on the path ("a:len:<op>:<k>").
+// feasible=false: the path is impossible.
+func (fl *c16Flow) leftoverLen(s kit.S) (lo, hi int64, feasible bool) {
+	const inf = int64(1) << 40
+	lo, hi = 0, inf
+	var nes []int64
+	for _, k := range s.Keys() {
+		if !strings.HasPrefix(k, "a:len:") {
+			continue
+		}
+		parts := strings.Split(strings.TrimPrefix(k, "a:len:"), ":")
+		if len(parts) != 2 {
+			continue
+		}
+		var c int64
+		fmt.Sscanf(parts[1], "%d", &c)
+		for _, b := range kit.CmpBounds(kit.AffConst(0), c16OpToks[parts[0]], s.Get(k) == "T") {
+			// CmpBounds speaks about D = Len - c with D's terms empty; shift by c
+			switch {
+			case b.NonZero:
+				nes = append(nes, c)
+			case b.Upper:
+				if b.M+c < hi {
+					hi = b.M + c
+				}
+			default:
+				if b.M+c > lo {
+					lo = b.M + c
+				}
+			}
+		}
+	}
+	for changed := true; changed; {
+		changed = false
+		for _, c := range nes {
+			if c == lo && lo <= hi {
+				lo++
+				changed = true
+			}
+			if c == hi && lo <= hi {
+				hi--
+				changed = true
+			}
+		}
+	}
+	return lo, hi, lo <= hi
+}
+
+// leafKnown reports whether the engine interprets the condition leaf exactly
+// (constant fold, error check, or one of the rule's atoms over variables whose
+// values it follows).  Paths that passed a leaf it does not interpret carry
+// "q:unk": a failed proof on such a path is undecided, not a violation.
+func (fl *c16Flow) leafKnown(e ast.Expr, s kit.S) bool {
+	info := fl.rd.f.Info()
+	e = ast.Unparen(e)
+	switch x := e.(type) {
+	case *ast.UnaryExpr:
+		if x.Op == token.NOT {
+			return fl.leafKnown(x.X, s)
+		}
+	case *ast.BinaryExpr:
+		if x.Op == token.LAND || x.Op == token.LOR {
+			return fl.leafKnown(x.X, s) && fl.leafKnown(x.Y, s)
+		}
+	}
+	if tv, ok := info.Types[e]; ok && tv.Value != nil {
+		return true
+	}
+	if _, _, ok := kit.ErrCheck(info, e); ok {
+		return true
+	}
+	if _, ok := fl.st.FoldExpr(e, s); ok {
+		return true
+	}
+	id, _, ok := fl.atom(e)
+	if !ok {
+		return false
+	}
+	if strings.HasPrefix(id, "c:") {
+		d := fl.tab[id[strings.Index(id[2:], ":")+3:]]
+		for t := range d.Terms {
+			switch {
+			case strings.HasPrefix(t, "len["):
+				if t != "len"+kit.VarToken(fl.rd.buf) {
+					lb := false
+					for o := range fl.rd.lbVars {
+						if t == "len"+kit.VarToken(o) {
+							lb = true
+						}
+					}
+					if !lb {
+						return false
+					}
+				}
+			case strings.HasPrefix(t, "v["):
+				if s.Get("q:opq:"+strings.TrimPrefix(t, "v")) != "" {
+					return false
+				}
+			}
+		}
+	}
+	return true
 }
 
 func (fl *c16Flow) provesLE(s kit.S, target kit.Affine, limit int64) bool {
@@ -593,6 +724,59 @@ func (fl *c16Flow) assignInt(s kit.S, o types.Object, newVal kit.Affine, ok bool
 	return s
 }
 
+// opaque marks an integer variable that received a value the engine does not
+// follow (a call result other than the tracked reads, len of a slice
+// expression, …): comparisons over it are not interpreted.
+func (fl *c16Flow) opaque(s kit.S, o types.Object) kit.S {
+	return s.Set("q:opq:"+kit.VarToken(o), "1")
+}
+
+// observerUnderstood: the Len()/Bytes() call feeds a construct the rule
+// interprets: a comparison with a constant, the defining assignment of a
+// followed alias, len(...) or an index test inside an atom.
+func (fl *c16Flow) observerUnderstood(call *ast.CallExpr) bool {
+	rd := fl.rd
+	par := fl.c.P.Parent(rd.f.File, call)
+	for {
+		if p, ok := par.(*ast.ParenExpr); ok {
+			par = fl.c.P.Parent(rd.f.File, p)
+			continue
+		}
+		break
+	}
+	switch p := par.(type) {
+	case *ast.BinaryExpr:
+		_, _, ok := fl.atom(p)
+		return ok
+	case *ast.AssignStmt:
+		if len(p.Lhs) == 1 {
+			if o := kit.ObjOf(rd.f.Info(), p.Lhs[0]); o != nil && rd.lbVars[o] {
+				return true
+			}
+		}
+	case *ast.IndexExpr:
+		if be, ok := fl.c.P.Parent(rd.f.File, p).(*ast.BinaryExpr); ok {
+			_, _, ok := fl.atom(be)
+			return ok
+		}
+	case *ast.CallExpr:
+		if bi, ok := kit.Callee(rd.f.Info(), p).(*types.Builtin); ok && bi.Name() == "len" {
+			if be, ok := fl.c.P.Parent(rd.f.File, p).(*ast.BinaryExpr); ok {
+				_, _, ok := fl.atom(be)
+				return ok
+			}
+			return false
+		}
+		// argument of another call: that call is classified on its own
+		for _, a := range p.Args {
+			if ast.Unparen(a) == ast.Expr(call) {
+				return true
+			}
+		}
+	}
+	return false
+}
+
 func c16IntVar(o types.Object) bool {
 	v, ok := o.(*types.Var)
 	if !ok || v.IsField() {
@@ -616,7 +800,7 @@ func (fl *c16Flow) decodeArg(call *ast.CallExpr) ast.Expr {
 		return nil
 	}
 	for _, a := range call.Args {
-		if kit.IsViewOf(info, a, rd.buf) {
+		if fl.isView(a) {
 			return a
 		}
 	}
@@ -625,18 +809,56 @@ func (fl *c16Flow) decodeArg(call *ast.CallExpr) ast.Expr {
 
 func c16In01(k int64) bool { return k == 0 || k == 1 }
 
+// isView: e is the caller's buffer, a slice expression of it, or a local
+// variable every assignment of which is such a view.
+func (fl *c16Flow) isView(e ast.Expr) bool {
+	rd := fl.rd
+	if kit.IsViewOf(rd.f.Info(), e, rd.buf) {
+		return true
+	}
+	if id, ok := ast.Unparen(e).(*ast.Ident); ok {
+		if o := kit.ObjOf(rd.f.Info(), id); o != nil && rd.viewVars[o] {
+			return true
+		}
+	}
+	return false
+}
+
+// viewBounds gives the bounds of a view of the caller's buffer as linear
+// forms over the current values of variables; for an alias the bounds are
+// those recorded at its assignment ("q:al:"), which are dropped as soon as a
+// variable they mention changes.
+func (fl *c16Flow) viewBounds(e ast.Expr, s kit.S) (lo, hi kit.Affine, ok bool) {
+	rd := fl.rd
+	if id, isID := ast.Unparen(e).(*ast.Ident); isID {
+		if o := kit.ObjOf(rd.f.Info(), id); o != nil && rd.viewVars[o] {
+			v := s.Get("q:al:" + kit.VarToken(o))
+			if v == "" {
+				return lo, hi, false
+			}
+			parts := strings.SplitN(v, "|", 2)
+			lo, ok1 := fl.tab[parts[0]]
+			hi, ok2 := fl.tab[parts[1]]
+			return lo, hi, ok1 && ok2
+		}
+	}
+	return kit.SliceBounds(rd.f.Info(), e, rd.buf)
+}
+
 // judgeDelivery decides R1 (after a device read) or R3 (from leftover) for a
 // call that decodes a view of the caller's buffer and whose count is returned.
 func (fl *c16Flow) judgeDelivery(s kit.S, call *ast.CallExpr, arg ast.Expr) (rule string, v c16Verdict) {
 	rd := fl.rd
-	info := rd.f.Info()
-	dlo, dhi, ok := kit.SliceBounds(info, arg, rd.buf)
+	dlo, dhi, ok := fl.viewBounds(arg, s)
 	if ok {
 		for o := range rd.unsafe {
 			if dlo.Mentions(o) || dhi.Mentions(o) {
 				ok = false
 			}
 		}
+	}
+	if ok {
+		dlo, dhi = fl.substEq(dlo, s), fl.substEq(dhi, s)
 	}
 	phaseDev := s.Get("q:phase") == "dev"
 	rule = "R3"
@@ -664,16 +886,29 @@ func (fl *c16Flow) judgeAfterDevice(s kit.S, arg ast.Expr, dhi kit.Affine) c16Ve
 	var end kit.Affine
 	haveEnd := false
 	if okL && s.Get("q:devL") != "" && strings.HasPrefix(cTok, "[") {
-		end = L.Add(kit.Affine{Terms: map[string]int64{"v" + cTok: 1}})
+		end = fl.substEq(L.Add(kit.Affine{Terms: map[string]int64{"v" + cTok: 1}}), s)
 		haveEnd = true
 	}
 	Ks := fl.terminators(s, "b")
+	for i := range Ks {
+		Ks[i] = fl.substEq(Ks[i], s)
+	}
 	saved := s.Get("q:saved")
 	switch saved {
 	case "stale":
 		return c16V("undec", "a variable of the saved tail's bounds changes between the save and the return of %s", rd.f.Str(arg))
 	case "":
 		// nothing saved on this path: acceptable only when the tail is provably empty
+		if s.Get("q:unk") != "" {
+			if haveEnd {
+				for _, K := range Ks {
+					if d, isC := dhi.Sub(K).Const(); isC && c16In01(d) && fl.provesLE(s, end.Sub(K).AddK(-1), 0) {
+						return c16V("ok", "no byte follows the terminator on this path")
+					}
+				}
+			}
+			return c16V("undec", "a frame (%s) is returned without a save on a path that passed a decision the rule does not interpret (%s)", rd.f.Str(arg), s.Get("q:unk"))
+		}
 		if haveEnd {
 			for _, K := range Ks {
 				if d, isC := dhi.Sub(K).Const(); isC && c16In01(d) {
@@ -695,6 +930,7 @@ func (fl *c16Flow) judgeAfterDevice(s kit.S, arg ast.Expr, dhi kit.Affine) c16Ve
 	if !ok1 || !ok2 {
 		return c16V("undec", "saved tail bounds lost")
 	}
+	slo, shi = fl.substEq(slo, s), fl.substEq(shi, s)
 	if !haveEnd {
 		return c16V("undec", "the extent of the device read (start, count) is not known at the return of %s", rd.f.Str(arg))
 	}
@@ -750,12 +986,16 @@ func (fl *c16Flow) judgeFromLeftover(s kit.S, arg ast.Expr, dhi kit.Affine) c16V
 	if !ok1 || !ok2 {
 		return c16V("undec", "bounds of the leftover move lost")
 	}
+	mlo, mhi = fl.substEq(mlo, s), fl.substEq(mhi, s)
 	if k, isC := mlo.Const(); !isC {
 		return c16V("undec", "leftover bytes are read to a non-constant offset of the caller's buffer")
 	} else if k != 0 {
 		return c16V("viol", "leftover bytes are read to b[%d:] but the frame is decoded from b[0:]", k)
 	}
 	Ks := fl.terminators(s, "l")
+	for i := range Ks {
+		Ks[i] = fl.substEq(Ks[i], s)
+	}
 	if whole, isC := mhi.Sub(kit.AffLen(rd.buf)).Const(); isC && whole == 0 {
 		if s.Get("q:lounk") != "" {
 			return c16V("undec", "the whole leftover buffer is read and the buffer is then used in a way the rule does not model")
@@ -800,7 +1040,7 @@ func c16TakeText(d int64) string {
 // judgeFirstRead decides R2 at a device read reached before any other device read.
 func (fl *c16Flow) judgeFirstRead(s kit.S, call *ast.CallExpr, L kit.Affine, okL bool) c16Verdict {
 	rd := fl.rd
-	if s.Get("a:ne") == "F" {
+	if _, hi, _ := fl.leftoverLen(s); hi == 0 {
 		return c16V("ok", "leftover buffer empty on this path")
 	}
 	mv := s.Get("q:mv")
@@ -808,6 +1048,8 @@ func (fl *c16Flow) judgeFirstRead(s kit.S, call *ast.CallExpr, L kit.Affine, okL
 		switch {
 		case s.Get("q:lounk") != "":
 			return c16V("undec", "the leftover buffer is used in a way the rule does not model before the device read (%s)", s.Get("q:lounk"))
+		case s.Get("q:unk") != "" || s.Get("q:lseen") != "":
+			return c16V("undec", "no move of the leftover bytes on a path to the device read that passed a decision the rule does not interpret (%s%s)", s.Get("q:unk"), s.Get("q:lseen"))
 		case s.Get("q:cp") != "":
 			return c16V("viol", "leftover bytes are copied into the caller's buffer (%s) but never removed from the leftover buffer: the next call sees the same bytes again", s.Get("q:cp"))
 		case s.Get("q:lowo") != "":
@@ -820,6 +1062,7 @@ func (fl *c16Flow) judgeFirstRead(s kit.S, call *ast.CallExpr, L kit.Affine, okL
 	if !ok1 {
 		return c16V("undec", "bounds of the leftover move lost")
 	}
+	mlo = fl.substEq(mlo, s)
 	if k, isC := mlo.Const(); !isC {
 		return c16V("undec", "leftover bytes are moved to a non-constant offset")
 	} else if k != 0 {
@@ -863,6 +1106,9 @@ func (fl *c16Flow) judgeReRead(s kit.S, call *ast.CallExpr, Lsyn kit.Affine, okL
 			return c16V("ok", "%s != len(%s) established (and Read never returns more than len(p))", Lsyn.String(), rd.buf.Name())
 		}
 	}
+	if s.Get("q:unk") != "" {
+		return c16V("undec", "%s < len(%s) is not established on a path back to the device read that passed a decision the rule does not interpret (%s)", Lsyn.String(), rd.buf.Name(), s.Get("q:unk"))
+	}
 	return c16V("viol", "the loop calls the device again with b[%s:] without having left when %s reached len(%s): with a full buffer Read returns 0 for ever and no later frame is delivered", Lsyn.String(), Lsyn.String(), rd.buf.Name())
 }
 
@@ -878,8 +1124,8 @@ func (fl *c16Flow) run() {
 
 	st.OnCall = func(call *ast.CallExpr, n ast.Node, s kit.S) []kit.S {
 		// device read
-		if c16IfaceCall(f, rd.recv, call, "Read") == rd.dev && len(call.Args) == 1 && kit.IsViewOf(info, call.Args[0], rd.buf) {
-			lo, hi, ok := kit.SliceBounds(info, call.Args[0], rd.buf)
+		if c16IfaceCall(f, rd.recv, call, "Read") == rd.dev && len(call.Args) == 1 && fl.isView(call.Args[0]) {
+			lo, hi, ok := fl.viewBounds(call.Args[0], s)
 			if ok {
 				for o := range rd.unsafe {
 					if lo.Mentions(o) {
@@ -897,7 +1143,7 @@ func (fl *c16Flow) run() {
 				site := fl.ss.at("R4", call, "repeated device read", "the device is read again into b[cur:] only after cur < len(b) was established")
 				site.add(fl.judgeReRead(s, call, lo, ok))
 			}
-			s = s.Set("q:phase", "dev").Del("q:saved").Del("q:devC").Del("q:devL")
+			s = s.Set("q:phase", "dev").Del("q:saved").Del("q:devC").Del("q:devL").Del("q:unk")
 			s = fl.dropPrefix(s, "a:z:b:")
 			s = fl.dropPrefix(s, "q:cnt:")
 			if ok {
@@ -908,11 +1154,18 @@ func (fl *c16Flow) run() {
 		// methods of the leftover buffer
 		if m := rd.loMethod(call); m != "" {
 			switch m {
-			case "Len", "Cap", "Bytes", "String", "Grow", "Available":
+			case "Grow", "Available", "Cap":
 				return nil
+			case "Len", "Bytes":
+				if fl.observerUnderstood(call) {
+					return nil
+				}
+				return []kit.S{s.Set("q:lseen", "leftover."+m+" at "+f.At(call))}
+			case "String":
+				return []kit.S{s.Set("q:lseen", "leftover."+m+" at "+f.At(call))}
 			case "Read":
-				if len(call.Args) == 1 && kit.IsViewOf(info, call.Args[0], rd.buf) {
-					lo, hi, ok := kit.SliceBounds(info, call.Args[0], rd.buf)
+				if len(call.Args) == 1 && fl.isView(call.Args[0]) {
+					lo, hi, ok := fl.viewBounds(call.Args[0], s)
 					if ok {
 						for o := range rd.unsafe {
 							if lo.Mentions(o) || hi.Mentions(o) {
@@ -920,7 +1173,7 @@ func (fl *c16Flow) run() {
 							}
 						}
 					}
-					s = fl.dropPrefix(s, "a:z:b:").Del("a:ne")
+					s = fl.dropPrefix(fl.dropPrefix(s, "a:z:b:"), "a:len:")
 					if !ok || s.Get("q:phase") == "dev" || s.Get("q:mv") != "" {
 						return []kit.S{s.Set("q:lounk", "leftover.Read at "+f.At(call))}
 					}
@@ -928,9 +1181,9 @@ func (fl *c16Flow) run() {
 				}
 				return []kit.S{s.Set("q:lounk", "leftover.Read into something else than the caller's buffer at "+f.At(call))}
 			case "Write":
-				s = fl.dropPrefix(s, "a:z:l:").Del("a:ne")
-				if len(call.Args) == 1 && kit.IsViewOf(info, call.Args[0], rd.buf) && s.Get("q:phase") == "dev" {
-					lo, hi, ok := kit.SliceBounds(info, call.Args[0], rd.buf)
+				s = fl.dropPrefix(fl.dropPrefix(s, "a:z:l:"), "a:len:")
+				if len(call.Args) == 1 && fl.isView(call.Args[0]) && s.Get("q:phase") == "dev" {
+					lo, hi, ok := fl.viewBounds(call.Args[0], s)
 					if ok {
 						for o := range rd.unsafe {
 							if lo.Mentions(o) || hi.Mentions(o) {
@@ -943,9 +1196,12 @@ func (fl *c16Flow) run() {
 					}
 					return []kit.S{s.Set("q:saved", fl.intern(lo)+"|"+fl.intern(hi))}
 				}
+				if s.Get("q:phase") == "dev" {
+					return []kit.S{s.Set("q:saved", "stale")}
+				}
 				return []kit.S{s.Set("q:lounk", "leftover.Write at "+f.At(call))}
 			default:
-				s = fl.dropPrefix(s, "a:z:l:").Del("a:ne")
+				s = fl.dropPrefix(fl.dropPrefix(s, "a:z:l:"), "a:len:")
 				return []kit.S{s.Set("q:lounk", "leftover."+m+" at "+f.At(call))}
 			}
 		}
@@ -967,7 +1223,7 @@ func (fl *c16Flow) run() {
 			case "len", "cap":
 				return nil
 			case "copy":
-				if len(call.Args) == 2 && kit.IsViewOf(info, call.Args[0], rd.buf) {
+				if len(call.Args) == 2 && fl.isView(call.Args[0]) {
 					return []kit.S{s.Set("q:cp", "copy at "+f.At(call))}
 				}
 			}
@@ -993,6 +1249,13 @@ func (fl *c16Flow) run() {
 				o   types.Object
 				val kit.Affine
 				ok  bool
+				opq bool
+			}
+			trackedRead := false
+			if len(y.Rhs) == 1 {
+				if call, ok := ast.Unparen(y.Rhs[0]).(*ast.CallExpr); ok {
+					trackedRead = c16IfaceCall(f, rd.recv, call, "Read") == rd.dev || rd.loMethod(call) == "Read"
+				}
 			}
 			var ups []upd
 			for i, l := range y.Lhs {
@@ -1001,13 +1264,19 @@ func (fl *c16Flow) run() {
 					continue
 				}
 				u := upd{o: o}
+				if c16IntVar(o) {
+					// a value the engine does not follow makes the variable opaque
+					u.opq = s.Get("q:opq:"+kit.VarToken(o)) != "" || !(trackedRead && i == 0)
+				}
 				if c16IntVar(o) && len(y.Lhs) == len(y.Rhs) {
 					switch y.Tok {
 					case token.ASSIGN, token.DEFINE:
 						u.val, u.ok = fl.value(y.Rhs[i], s)
+						u.opq = !u.ok && !(trackedRead && i == 0)
 					case token.ADD_ASSIGN, token.SUB_ASSIGN:
 						a, ok1 := fl.value(l, s)
 						b, ok2 := fl.value(y.Rhs[i], s)
+						u.opq = s.Get("q:opq:"+kit.VarToken(o)) != "" || !ok2
 						if ok1 && ok2 && !a.Mentions(o) {
 							u.ok = true
 							if y.Tok == token.ADD_ASSIGN {
@@ -1023,8 +1292,21 @@ func (fl *c16Flow) run() {
 			for _, u := range ups {
 				if c16IntVar(u.o) {
 					s = fl.assignInt(s, u.o, u.val, u.ok)
+					if u.opq {
+						s = fl.opaque(s, u.o)
+					}
 				} else {
 					s = fl.invalidate(s, u.o)
+				}
+			}
+			// aliases of views of the caller's buffer
+			if len(y.Lhs) == len(y.Rhs) {
+				for i, l := range y.Lhs {
+					if o := kit.ObjOf(info, l); o != nil && rd.viewVars[o] {
+						if lo, hi, ok := kit.SliceBounds(info, y.Rhs[i], rd.buf); ok {
+							s = s.Set("q:al:"+kit.VarToken(o), fl.intern(lo)+"|"+fl.intern(hi))
+						}
+					}
 				}
 			}
 			// bind the count results of the calls the rules follow
@@ -1058,7 +1340,13 @@ func (fl *c16Flow) run() {
 				}
 			}
 		case *ast.IncDecStmt:
-			s = fl.invalidate(s, kit.ObjOf(info, y.X))
+			if o := kit.ObjOf(info, y.X); o != nil {
+				was := s.Get("q:opq:"+kit.VarToken(o)) != ""
+				s = fl.invalidate(s, o)
+				if was {
+					s = fl.opaque(s, o)
+				}
+			}
 		case *ast.ValueSpec:
 			for i, nm := range y.Names {
 				o := info.Defs[nm]
@@ -1072,8 +1360,11 @@ func (fl *c16Flow) run() {
 					case len(y.Values) == len(y.Names):
 						v, ok := fl.value(y.Values[i], s)
 						s = fl.assignInt(s, o, v, ok)
+						if !ok {
+							s = fl.opaque(s, o)
+						}
 					default:
-						s = fl.invalidate(s, o)
+						s = fl.opaque(fl.invalidate(s, o), o)
 					}
 				} else {
 					s = fl.invalidate(s, o)
@@ -1087,7 +1378,39 @@ func (fl *c16Flow) run() {
 		return []kit.S{s}
 	}
 
-	res := f.Prog.Graph(f).Run(kit.NewS(), st.Client())
+	st.Eval.Consistent = func(s kit.S) bool {
+		_, _, feasible := fl.leftoverLen(s)
+		return feasible
+	}
+	cl := st.Client()
+	innerCond, innerOther := cl.Cond, cl.Other
+	mark := func(states []kit.S, why string) []kit.S {
+		out := make([]kit.S, len(states))
+		for i, x := range states {
+			out[i] = x.Set("q:unk", why)
+		}
+		return out
+	}
+	cl.Cond = func(cond ast.Expr, s kit.S) (t, fs []kit.S) {
+		t, fs = innerCond(cond, s)
+		if !fl.leafKnown(cond, s) {
+			why := "`" + f.Str(cond) + "` at " + f.At(cond)
+			return mark(t, why), mark(fs, why)
+		}
+		return t, fs
+	}
+	cl.Other = func(br kit.Branch, s kit.S) (t, fs []kit.S) {
+		t, fs = innerOther(br, s)
+		if len(t) > 0 && len(fs) > 0 && br.Kind != kit.BrRange {
+			return mark(t, "switch/select"), mark(fs, "switch/select")
+		}
+		if br.Kind == kit.BrRange {
+			why := "range at " + f.At(br.Range)
+			return mark(t, why), mark(fs, why)
+		}
+		return t, fs
+	}
+	res := f.Prog.Graph(f).Run(kit.NewS(), cl)
 	if res.Overflow {
 		fl.c.Fatalf("C16: state overflow in %s", f.Name)
 	}
@@ -1404,20 +1727,19 @@ func c16JudgeWriter(c *kit.Ctx, f *kit.Func, o *kit.Ob, payload *types.Var, writ
 			if bi, isB := kit.Callee(info, call).(*types.Builtin); isB && bi.Name() == "append" && len(call.Args) == 2 && call.Ellipsis.IsValid() {
 				z, rec := allZero(call.Args[0])
 				k, m := isEncodeOfPayload(call.Args[1])
-				if k == "undec" && m == "not a call of Encode" {
-					// maybe the payload frame comes first and zeros are appended
-					return "undec", fmt.Sprintf("append(%s, %s...) is not zeros followed by Encode(payload)", f.Str(call.Args[0]), f.Str(call.Args[1]))
+				if !(k == "undec" && m == "not a call of Encode") {
+					if k != "ok" {
+						return k, m
+					}
+					if rec && !z {
+						return "viol", fmt.Sprintf("the frame is prefixed with %s: a non-zero byte in front of the code byte corrupts the frame", f.Str(call.Args[0]))
+					}
+					if !rec {
+						return "undec", fmt.Sprintf("cannot tell whether the prefix %s consists of zero bytes", f.Str(call.Args[0]))
+					}
+					return "ok", ""
 				}
-				if k != "ok" {
-					return k, m
-				}
-				if rec && !z {
-					return "viol", fmt.Sprintf("the frame is prefixed with %s: a non-zero byte in front of the code byte corrupts the frame", f.Str(call.Args[0]))
-				}
-				if !rec {
-					return "undec", fmt.Sprintf("cannot tell whether the prefix %s consists of zero bytes", f.Str(call.Args[0]))
-				}
-				return "ok", ""
+				// otherwise: fall through to the "does it involve Encode at all" test
 			}
 		}
 		// does the expression involve Encode at all?
